@@ -448,7 +448,7 @@ def table_cases(thorough):
         add(3, 60, [banded_cells(3, 60, p) for p in pats], ("stab", "cluster", "ssi.stab"), covs=(True,), df=0.01)
     else:
         add(3, 3, all_cells(3, 3), ("stab", "cluster"))
-        add(2, 4, all_cells(2, 4), ("stab", "cluster"))
+        add(2, 4, all_cells(2, 4), ("stab",))
         add(2, 3, all_cells(2, 3), ("stab", "cluster") + cls_routes, freqlims=both, covs=(False, True))
         add(2, 2, all_cells(2, 2), ms_routes, freqlims=both, covs=(False, True))
         cover34 = [banded_cells(3, 4, p) for p in pats] + single_cells(3, 4)
